@@ -29,7 +29,7 @@ func init() {
 	tours["weeks"] = []func(*core.Result, *core.RNG) (*sim, error){weeksTour}
 	tours["restart"] = []func(*core.Result, *core.RNG) (*sim, error){restartTour, restartFaultTour}
 	tours["equip"] = []func(*core.Result, *core.RNG) (*sim, error){equipTour, keyReuseTour}
-	tours["register"] = []func(*core.Result, *core.RNG) (*sim, error){registerTour, registerRaceTour}
+	tours["register"] = []func(*core.Result, *core.RNG) (*sim, error){registerTour, registerRaceTour, damagedKeyTour}
 	tours["hostile"] = []func(*core.Result, *core.RNG) (*sim, error){hostileTour, shutdownTour}
 }
 
@@ -255,6 +255,21 @@ func equipTour(res *core.Result, r *core.RNG) (*sim, error) {
 	if rr := s.w.Raw("GET", "/api/v1/recent-reports?publicKey="+hexk, nil); rr.Status != 200 {
 		s.fail("recent reports of an untouched device are no longer served after another id was banned", "c06-other-device-lookup")
 	}
+	// a device with the boundary id 0 holds reports; lookups for the banned device's key, for a key that
+	// was never authorized and for the live devices go through the real endpoint and the model
+	dzero := &device{ID: 0, K: srv.DetKey(s.r), Cap: 1000}
+	dzero.Auth = s.mkAuth(dzero, s.a.GCA)
+	if ob := s.authorize(dzero.Auth, "new"); strings.Contains(ob, "Accepted true") {
+		s.a.Devices = append(s.a.Devices, dzero)
+		s.send(dzero, 300, 321)
+		s.res.Count("equip.id-zero")
+	}
+	for _, k := range []glow.PublicKey{d0.K.Pub, srv.DetKey(s.r).Pub, d1.K.Pub, dzero.K.Pub} {
+		found, slots, _ := s.w.Recent(k, "lookup")
+		if found && (k == d0.K.Pub) {
+			s.fail(fmt.Sprintf("recent reports are served for the key of a banned device (%d slots of another device's window)", len(slots)), "c06-banned-key-served")
+		}
+	}
 	s.w.Sync(d0.ID, true)
 	s.w.Sync(d1.ID, true)
 	s.deliverReport(s.a.report(s.w, d0, 301, 446, d0.K), "report") // banned: refused
@@ -275,6 +290,10 @@ func equipTour(res *core.Result, r *core.RNG) (*sim, error) {
 		s.res.Count("authorize.conflict-signed-zero")
 		s.authorize(ez2, "conflict-signed-zero")
 	}
+	// the evidence of a conflict cannot be written (the authorization log is not writable): whatever the
+	// answer, the server's view after the next restart must equal its view now -- a ban that exists in
+	// memory only would be gone after the restart
+	s.authorizeConflictWithWriteFault()
 	// a conflicting authorization bans a device while the impact job is between its listing and that
 	// device's write: the ban must go through like any other, the job must survive it
 	hit := false
@@ -380,6 +399,42 @@ func registerTour(res *core.Result, r *core.RNG) (*sim, error) {
 	// only the registered key's signatures are honoured afterwards
 	s.authorizeVariant("foreign-signature")
 	s.addDevice(1000)
+	return s, nil
+}
+
+// the key file of a registered server is damaged (one byte short) while the server is down: a start on
+// that directory either refuses or comes up registered -- never with the registration open again
+func damagedKeyTour(res *core.Result, r *core.RNG) (*sim, error) {
+	s, err := newSim(res, r, "register-damaged", 10, true)
+	if err != nil {
+		return nil, err
+	}
+	s.register("valid")
+	s.w.SnapHop()
+	now := s.w.Now
+	if p := s.w.CloseServer(); p != "" {
+		s.fail("server consistency check (CheckInvariants) panics at shutdown: "+p, "checkinvariants-panic")
+	}
+	s.alive = false
+	img := fmt.Sprintf("%s-shortkey", s.w.Dir)
+	if srv.CopyDir(s.w.Dir, img) != nil {
+		return s, nil
+	}
+	kf := filepath.Join(img, "gcaPubKey.dat")
+	b, err := os.ReadFile(kf)
+	if err != nil || len(b) != 32 {
+		os.RemoveAll(img)
+		s.fail("a registered server has no 32-byte key file after shutdown", "c07-key-file-missing")
+		return s, nil
+	}
+	os.WriteFile(kf, b[:31], 0644)
+	started, sn, _, pan := s.w.RecoverImage(srv.CrashImage{Dir: img, Now: now, OpSeq: len(s.w.Hops)})
+	s.res.Count("register.damaged-key-file")
+	if pan != "" {
+		s.fail("start-up on a directory with a damaged GCA key file panics: "+pan, "c07-damaged-key-panic")
+	} else if started && !sn.GCAAvailable {
+		s.fail("a registered server whose key file lost a byte starts with the registration open again: the temporary-key holder can install another GCA key", "c07-registration-reopened")
+	}
 	return s, nil
 }
 
@@ -676,4 +731,35 @@ func capBoundaries() []uint64 {
 		out = append(out, u-1, u, u+1)
 	}
 	return append(out, 1<<64-1, 1<<63)
+}
+
+// authorizeConflictWithWriteFault: equipment-authorizations.dat is replaced by a directory while a
+// conflicting authorization for a live device is submitted, then put back.  The request may fail; the
+// in-memory view must then be unchanged (the evidence is not on disk, so nothing may depend on it).
+func (s *sim) authorizeConflictWithWriteFault() {
+	w := s.w
+	live := s.liveDevices()
+	if len(live) < 2 {
+		return
+	}
+	d := live[0]
+	f := filepath.Join(w.Dir, "equipment-authorizations.dat")
+	bak := f + ".moved"
+	if os.Rename(f, bak) != nil {
+		return
+	}
+	os.Mkdir(f, 0755)
+	before := w.S.VerifSnapshot()
+	ea := d.Auth
+	ea.Debt += 11
+	ea.Signature = glow.Sign(ea.SigningBytes(), s.a.GCA.Priv)
+	j, _ := json.Marshal(ea)
+	rr := w.Raw("POST", "/api/v1/authorize-equipment", j)
+	after := w.S.VerifSnapshot()
+	os.Remove(f)
+	os.Rename(bak, f)
+	s.res.Count("authorize.conflict-write-fault")
+	if viewJSON(before, true) != viewJSON(after, true) {
+		s.fail(fmt.Sprintf("a conflicting authorization whose evidence could not be written (status %d) still changed the server's memory: device %d is banned now and authorized again after the next restart", rr.Status, d.ID), "c06-ban-not-durable")
+	}
 }
